@@ -19,6 +19,8 @@ var urlTypes = []TypeD{
 	{Name: "one", Attrs: []AttrD{{"only", kStr}}},
 	{Name: "none"},
 	{Name: "self", Rels: []RelD{{"me", false, "self", ""}}},
+	// field names that differ by case only
+	{Name: "cs", Attrs: []AttrD{{"n", kStr}, {"N", kStr}, {"Nn", kInt}}},
 }
 
 var urlSchemas = map[bool]*j.Schema{}
@@ -82,7 +84,7 @@ func (d *TypeD) fieldNames() []string {
 }
 
 // representative paths crossed with the query menu
-var urlPaths = []string{"/a", "/a/1", "/a/1/r", "/a/1/rr", "/a/1/relationships/rr", "/a/1/relationships/r", "/a/1/ab", "/b", "/b/1/s", "/c/1/t", "/one", "/none", "/self", "/self/1/me", "/nope", ""}
+var urlPaths = []string{"/a", "/a/1", "/a/1/r", "/a/1/rr", "/a/1/relationships/rr", "/a/1/relationships/r", "/a/1/ab", "/b", "/b/1/s", "/c/1/t", "/one", "/none", "/self", "/self/1/me", "/nope", "", "/cs"}
 
 type qParam struct {
 	name, val string
@@ -102,16 +104,20 @@ func urlMenu() []qParam {
 	add("fields[none]", "", "q")
 	add("fields[]", "x")
 	add("fields[c]", "t")
+	add("fields[cs]", "n,N", "N,n", "Nn,n,N")
 	add("sort", "--x", "--id", "---y,x", "-yx", "yx,-x", "x,yx", "x,%20", "+", "-x,%09,y", "%20x", "x, y",
 		"x", "-x", "x,x", "x,-x", "x,x,x", "id", "-id", "id,x", "x,id,y", "-", "", "zz", "r", "y,x", ",", "-y,-x", "z", "only")
-	add("include", "r.r,rr", "rr.rr", "r.r.r", "r,%20", "%20", "r", "r,rr", "zz", "zz,yy", "zz,yy,r", "r.s", "r.s.t", "r,r.s", "r.zz", "ab.ab", "ab.r.s", "me", "r.s,rr.s", "", "rr,r", "r,ab", "ab", "rr.s,rr", "r.,r", "s", "t.r", "me.me.me")
+	add("include", "r.r,rr", "rr.rr", "r.r.r", "r,%20", "%20", "r", "r,rr", "zz", "zz,yy", "zz,yy,r", "r.s", "r.s.t", "r,r.s", "r.zz", "ab.ab", "ab.r.s", "me", "r.s,rr.s", "", "rr,r", "r,ab", "ab", "rr.s,rr", "r.,r", "s", "t.r", "me.me.me",
+		"r,r.s,r.s.t", "r.s.t,r,r.s", "r,r,r", "ab,ab.ab,ab.ab.ab,ab.ab", "r,r.s,rr,rr.s,r.s.t")
 	add("page[size]", "1", "-1", "a", "a%26b", "", "10")
 	add("page[number]", "2", "0")
 	add("page[foo]", "bar")
 	add("page[]", "1")
 	add("filter", "label", "", "%7B", `%7B%22f%22%3A%22x%22%2C%22o%22%3A%22%3D%22%2C%22v%22%3A%22a%22%7D`,
 		`%7B%22o%22%3A%22and%22%2C%22v%22%3A%5B%7B%22f%22%3A%22x%22%2C%22o%22%3A%22%3D%22%2C%22v%22%3A%22a%22%7D%2C%7B%22o%22%3A%22or%22%2C%22v%22%3A%5B%5D%7D%5D%7D`,
-		`%7B%22o%22%3A%22and%22%2C%22v%22%3A5%7D`, "lab%22el", "%5B1%5D", "a%20b", "a%26b")
+		`%7B%22o%22%3A%22and%22%2C%22v%22%3A5%7D`, "lab%22el", "%5B1%5D", "a%20b", "a%26b",
+		// operators in other letter cases are ordinary (unknown) operators, not and/or
+		`%7B%22o%22%3A%22AND%22%2C%22v%22%3A%5B%7B%22f%22%3A%22x%22%2C%22o%22%3A%22%3D%22%2C%22v%22%3A%22a%22%7D%5D%7D`, `%7B%22o%22%3A%22Or%22%2C%22v%22%3A%5B%7B%22f%22%3A%22x%22%2C%22o%22%3A%22%3D%22%2C%22v%22%3A%22a%22%7D%2C%7B%22o%22%3A%22aNd%22%2C%22v%22%3A%5B%5D%7D%5D%7D`, `%7B%22f%22%3A%22x%22%2C%22o%22%3A%22%3D%22%2C%22v%22%3A%22a%22%2C%22c%22%3A%22X%22%7D`)
 	add("unknown", "1")
 	add("fields[a", "x")
 	add("sort", "%zz")
@@ -121,9 +127,31 @@ func urlMenu() []qParam {
 // GenURL lets the explorer pick a raw URL: a representative path and 0..maxParams
 // query parameters (ordered, with repetition) from the menu.
 func GenURL(x *mc.Exec, maxParams int) (raw string, params []qParam, path string) {
-	menu := urlMenu()
+	return GenURLReduced(x, maxParams, maxParams)
+}
+
+// urlMenuReduced: the first two instances of every parameter name
+func urlMenuReduced() []qParam {
+	seen := map[string]int{}
+	var m []qParam
+	for _, p := range urlMenu() {
+		if seen[p.name] < 2 {
+			m = append(m, p)
+		}
+		seen[p.name]++
+	}
+	return m
+}
+
+// GenURLReduced: parameters from position fullUpTo on come from the reduced menu.
+func GenURLReduced(x *mc.Exec, maxParams, fullUpTo int) (raw string, params []qParam, path string) {
+	full, reduced := urlMenu(), urlMenuReduced()
 	path = urlPaths[x.Choose(len(urlPaths), "path")]
 	for i := 0; i < maxParams; i++ {
+		menu := full
+		if i >= fullUpTo {
+			menu = reduced
+		}
 		c := x.Choose(len(menu)+1, "param")
 		if c == len(menu) {
 			break
